@@ -35,11 +35,20 @@ DESC = {
  'C10-c': "slice + / += returns the right operand itself when the left one is empty (the result aliases it, unlike Go's append)",
  'C11-c': "member read uses only the first element of the field index path: promoted fields of embedded structs yield the embedded struct",
  'C16-c': "go call of a 3-parameter script function hands the second argument to the goroutine in place of the third",
+ 'C02-d': "?? recognises an interruption of its left side by comparing with the ErrInterrupt sentinel instead of polling the context (an interrupt wrapped by a script function call is swallowed)",
+ 'C03-d': "the action of the full slice form expr[lo:hi:max] stores the hi operand into the Cap slot",
+ 'C06-d': "equal answers true for two slices that start at the same storage address, without comparing lengths",
+ 'C10-d': "a two-index slice expression limits the capacity of the result to len(x) instead of cap(x) (appends no longer share storage)",
+ 'C11-d': "the callback adapter returns before looking at the script function's error when the Go func type has no results (errors inside such callbacks are dropped)",
+ 'C13-d': "DefineReflectType creates the lazily allocated types map before taking the lock",
+ 'C16-d': "the receive statement uses a non-blocking TryRecv on buffered channels: an open, momentarily empty channel reads as closed",
+ 'C19-d': "toInt parses numeral strings through float64 only (integers above 2^53 come back rounded)",
  'C20-b': "the right operand of comparisons is no longer unwrapped from an interface-typed element",
 }
 EXTRA_PROPS = {'C09-c': ['C14']}   # seeds whose change is (also) a violation of another claimed property
 FIRST = {  # verdict of the check as it was when the seed was first evaluated
  'C08-a': 'missed', 'C08-b': 'missed', 'C04-b': 'missed', 'C19-b': 'missed', 'C01-b': 'missed',
+ 'C06-d': 'missed', 'C10-d': 'missed', 'C11-d': 'missed', 'C19-d': 'missed',
  'C07-c': 'missed', 'C10-c': 'missed', 'C11-c': 'missed', 'C16-c': 'missed', 'C09-c': 'missed by the C09 check, caught by the C14 check (store into the parsed tree)',
 }
 
